@@ -7,3 +7,7 @@ import OsyrisProofs.C14
 #print axioms Osyris.Readers.var_loop_reads_columns
 #print axioms Osyris.Readers.expReads_offs
 #print axioms Osyris.Layout.skelOf_partFile
+#print axioms Osyris.C14.rowsOf_add_self
+#print axioms Osyris.C14.rowsOf_add_other
+#print axioms Osyris.C14.C14_concatenation
+#print axioms Osyris.C14.C14_concatenation_frame
